@@ -309,10 +309,7 @@ def _runner(repo, fn):
 
 
 def _where(repo, q):
-    try:
-        return repo.fn(q)
-    except Exception:
-        return repo.cls(q)
+    return repo.where(q)
 
 
 def _report(ctx, rule, results, oks):
